@@ -4,7 +4,7 @@ use indexmap::IndexSet;
 pub use options::{Options, Regex};
 use patch_flags::PatchFlags;
 use slot_flag::SlotFlag;
-use std::{borrow::Cow, collections::BTreeMap, mem};
+use std::{borrow::Cow, cell::RefCell, collections::BTreeMap, mem};
 use swc_core::{
     common::{comments::Comments, Mark, Span, Spanned, SyntaxContext, DUMMY_SP},
     ecma::{
@@ -46,6 +46,8 @@ where
     fragment_aliases: Vec<Id>,
     interfaces: FnvHashMap<(Atom, SyntaxContext), TsInterfaceDecl>,
     type_aliases: FnvHashMap<(Atom, SyntaxContext), TsType>,
+    /// type references currently being resolved, to detect circular references
+    resolving_types: RefCell<Vec<(Atom, SyntaxContext)>>,
 
     unresolved_mark: Mark,
     comments: Option<C>,
@@ -74,6 +76,7 @@ where
             fragment_aliases: Default::default(),
             interfaces: Default::default(),
             type_aliases: Default::default(),
+            resolving_types: Default::default(),
 
             unresolved_mark,
             comments,
